@@ -5,7 +5,7 @@ namespace Hv.C13
 
 /-- The kernel-checked decision for the facts extracted from /repo on this run. -/
 theorem verdict :
-    (classify Generated.factsC13).Sound (Holds (cfgOf Generated.factsC13)) (HoldsExcept (cfgOf Generated.factsC13)) :=
+    (classify Generated.factsC13).Sound (Full Generated.factsC13) (HoldsExcept (cfgOf Generated.factsC13)) :=
   classify_sound _
 
 #eval IO.println (verdictLine "C13" (classify Generated.factsC13))
@@ -23,6 +23,8 @@ theorem verdict :
 #print axioms not_refinesSpec_of_scalar
 #print axioms apply_refines_spec_unvalidated_partial
 #print axioms atomic_fold
+#print axioms patchFields_refines
+#print axioms witness_spliced_opaque
 #print axioms inc_keeps_format
 #print axioms common
 #print axioms Hv.Patch.walk_refines
